@@ -176,6 +176,10 @@ structure ECand (α : Type) where
   cls : Option Nat
   /-- every `VehicleRestriction` of the edge is `valid` for the query's vehicle (true when either is absent) -/
   vehOk : Bool
+  /-- great-circle metres from the query coordinate to the centroid (real `haversine`, `none` when it
+  refuses the coordinate).  NOT read by the code: it is here so that the property's tolerance clause can be
+  stated, and for the day `within_tolerance` is given a distance in metres. -/
+  gc : Option α
   deriving Repr, Inhabited
 
 /-- `u8` out of a JSON number -/
